@@ -103,10 +103,11 @@ PROPS = {
                    'infinite input space: held-on-what-was-observed. One sub-space is covered EXHAUSTIVELY in every run: all %d strings of '
                    'length <= %d of the literal grammar over {+,-,0,1,5,9,.,e,E,/} through soplex::ratFromString (and all of them, thorough '
                    'tier, or a 1-in-3 (opt) / 1-in-12 (asan) hash sample plus every literal of length <= 4, quick tier, through LP and MPS files in '
-                   'rational and real read mode).' % (NLIT, LIT_MAXLEN),
+                   'rational and real read mode; literals with an exponent > 308, which kill the rational readers of the pinned tree with SIGFPE '
+                   'and need a forked child each, are thinned by a further factor 6 in the sampled quick-tier file routes).' % (NLIT, LIT_MAXLEN),
         level_note='trusts GMP arithmetic, a 40-line independent literal parser (cross-checked against glibc strtod in real mode), the exact '
                    'reference simplex (certificates re-checked), and name-based matching of rows/columns; real MPS files are compared to '
-                   '1e-15 absolute + 1e-14 relative (the writer prints %.15f), everything else exactly; the objective offset is a solver '
+                   '2e-15 absolute + 1e-14 relative (the writer prints %.15f; a ranged row is the sum of two such numbers), everything else exactly; the objective offset is a solver '
                    'parameter that neither writer stores, it is excluded from the comparison',
         technique='runtime monitoring: exact structural + certified-optimum oracle over write/read executions under ASan+UBSan; exhaustive '
                   'grammar enumeration for numeric literals with fork isolation of inputs that raise SIGFPE inside GMP',
